@@ -1,6 +1,7 @@
 package chainsim
 
 import (
+	"github.com/dominant-strategies/go-quai/ethdb"
 	"bytes"
 	"sort"
 
@@ -85,7 +86,13 @@ func runChainP(tt *testing.T, tr *simkit.Trace, cfg NodeConfig, regime Regime, p
 		if err != nil {
 			panic(fmt.Sprintf("harness: cannot start node: %v", err))
 		}
-		defer w.StopAll()
+		defer func() {
+			w.StopAll()
+			synctest.Wait()
+			if cfg.CloseDB != nil {
+				cfg.CloseDB()
+			}
+		}()
 		r := &Runner{W: w, N: n, Head: w.Gen, Stats: res.stats}
 		for _, op := range Prologue(prologue) { // prologue runs without monitors
 			if !r.Step(op) {
@@ -166,9 +173,45 @@ func renderTape(tape []Op) []string {
 
 // chainProperty is the common body of the S5 property tests.
 func chainProperty(t *testing.T, prop string, mk func(r *Runner, fail func(class, witness, detail string)) Hooks) {
+	chainPropertyCfg(t, prop, false, mk)
+}
+
+// chainPropertyCfg: with engines=true the zone database engine (memorydb / leveldb / pebble) is drawn per run.
+func chainPropertyCfg(t *testing.T, prop string, engines bool, mk func(r *Runner, fail func(class, witness, detail string)) Hooks) {
 	rapid.Check(t, func(rt *rapid.T) {
 		defer simkit.EndOnKnown()
 		c := drawCase(rt)
+		if engines {
+			eng := rapid.SampledFrom([]string{"memorydb", "leveldb", "pebble"}).Draw(rt, "zoneEngine")
+			dir, err := os.MkdirTemp(scratchBase(), "chainsim-")
+			if err != nil {
+				panic(err)
+			}
+			defer os.RemoveAll(dir)
+			inner := c.Cfg.OpenDB
+			var zone *SimDisk
+			c.Cfg.OpenDB = func(ctx int) ethdb.Database {
+				if ctx != common.ZONE_CTX {
+					return inner(ctx)
+				}
+				if zone == nil {
+					d, err := openEngineDisk(eng, dir+"/zone", LocZone)
+					if err != nil {
+						panic("harness: cannot open " + eng + ": " + err.Error())
+					}
+					zone = d
+				}
+				return zone
+			}
+			c.Cfg.CloseDB = func() { // must run inside the bubble that opened the engine
+				if zone != nil {
+					zone.Database.Close()
+					zone = nil
+				}
+			}
+			simkit.Global.Seen("engine", eng)
+			simkit.Global.Inc("engine." + eng)
+		}
 		tr := simkit.NewTrace()
 		var v *violation
 		res := runChainP(t, tr, c.Cfg, DefaultRegime(), c.Prologue, c.Tape, func(r *Runner) Hooks {
@@ -222,7 +265,7 @@ func checkCommitments(n *Node, bi *BlockInfo, reorg bool, fail func(class, witne
 }
 
 func TestC06(t *testing.T) {
-	chainProperty(t, "C06", func(r *Runner, fail func(class, witness, detail string)) Hooks {
+	chainPropertyCfg(t, "C06", true, func(r *Runner, fail func(class, witness, detail string)) Hooks {
 		return Hooks{AfterHead: func(w *World, n *Node, bi *BlockInfo, reorg bool) { checkCommitments(n, bi, reorg, fail) }}
 	})
 }
@@ -305,7 +348,7 @@ func (w *World) freshNodeOn(cfg NodeConfig, tip common.Hash) (*Node, error) {
 }
 
 func TestC10(t *testing.T) {
-	chainProperty(t, "C10", func(r *Runner, fail func(class, witness, detail string)) Hooks {
+	chainPropertyCfg(t, "C10", true, func(r *Runner, fail func(class, witness, detail string)) Hooks {
 		checks := 0
 		reorged := false
 		compare := func(w *World, n *Node, tip common.Hash, when string) {
@@ -619,4 +662,14 @@ func TestC16(t *testing.T) {
 	chainProperty(t, "C16", func(r *Runner, fail func(class, witness, detail string)) Hooks {
 		return Hooks{AfterHead: func(w *World, n *Node, bi *BlockInfo, reorg bool) { checkScopes(n, bi, fail) }}
 	})
+}
+
+func scratchBase() string {
+	if d := os.Getenv("VERIF_SCRATCH"); d != "" {
+		return d
+	}
+	if st, err := os.Stat("/dev/shm"); err == nil && st.IsDir() {
+		return "/dev/shm"
+	}
+	return os.TempDir()
 }
